@@ -451,3 +451,16 @@ class History:
                 if f in ended:
                     reasons.append('%s waits to join %s which has finished' % (who, f))
         return reasons
+
+
+def source(rng):
+    """a network program for corpora that only need text"""
+    kind = rng.choice(['sync2', 'two', 'multi'])
+    if kind == 'sync2':
+        net = gen_network(rng, 2, rng.randint(1, 3), rng.choice([4, 8, 14]), srsw=True, allow_close=False)
+        net['chans'] = [0 for _ in net['chans']]
+    elif kind == 'two':
+        net = gen_network(rng, 2, rng.randint(1, 4), rng.choice([4, 8, 14]), srsw=True, allow_close=False)
+    else:
+        net = gen_network(rng, rng.randint(3, 5), rng.randint(1, 3), 8, srsw=True, allow_close=False)
+    return to_source(net)
